@@ -698,6 +698,10 @@ impl Interp {
 						let got = self.get(col as u8, &key)?;
 						let want = m.get(id);
 						if got.as_ref() != want {
+							if std::env::var("PDBV_ALL").is_ok() {
+								eprintln!("MISMATCH col {col} id {id} key {:02x?} got {} want {}", &key[..key.len().min(10)], brief(got.as_deref()), brief(want.map(|v| v.as_slice())));
+								continue
+							}
 							fail!(
 								"read-mismatch",
 								"col {col} key id {id} (len {}): got {} want {}",
